@@ -184,61 +184,34 @@ def rule_incdec(chk):
 
 
 def rule_conv_table(chk):
+    """ImplicitConversion::find evaluated over a finite model of the type registry (convmodel.py): value categories,
+    and const / volatile towards an lvalue destination."""
+    import convmodel as CM
     f = chk.facts
-    ip = I.Interp(f)
     find = chk.anchor("C03.anchor/ImplicitConversion::find", f.fn("find", TY, self_ty="ImplicitConversion"), "ImplicitConversion::find")
     if not find:
         return
-    # the first match over (&source.1, &dest.1)
-    mm = None
-    for m in F.exprs(find["thir"], "Match"):
-        s = F.strip(m["scrut"])
-        if s.get("k") == "Tuple" and len(s["elems"]) == 2 and all(F.strip(x).get("ty", "").endswith("ValueType") for x in s["elems"]):
-            mm = m
-            break
-    if not chk.anchor("C03.anchor/value-category-table", mm, "match over (source.1, dest.1)", where(find)):
-        return
-    pids = [p["pat"]["id"] for p in find["params"] if p.get("pat", {}).get("k") == "Bind"]
+    cv = CM.Conversions(f)
     REF = {("Rvalue", "Lvalue"): "refuse", ("Rvalue", "Rvalue"): "none", ("Lvalue", "Lvalue"): "none", ("Lvalue", "Rvalue"): "cast"}
     for (s, d), want in sorted(REF.items()):
-        env = {pids[0]: I.Enum("ExpressionType", None, {"0": I.Opaque("sty"), "1": I.Enum("ValueType", s)}),
-               pids[1]: I.Enum("ExpressionType", None, {"0": I.Opaque("dty"), "1": I.Enum("ValueType", d)})}
-        try:
-            r = ip.ev(mm, env)
-            third = r[2] if isinstance(r, tuple) and len(r) == 3 else None
-            got = "none" if isinstance(third, I.Enum) and third.variant == "None" else ("cast" if isinstance(third, I.Enum) and third.variant == "Some" else "?")
-            if got == "cast":
-                c = third.fields.get("0")
-                if not (isinstance(c, I.Enum) and c.fields.get("1") == I.Enum("ValueType", "Lvalue") and c.fields.get("2") == I.Enum("ValueType", "Rvalue")):
-                    got = "cast(wrong categories)"
-        except I.ReturnEx as rx:
-            got = "refuse" if isinstance(rx.value, I.Enum) and rx.value.variant == "Err" else "return?"
-        except I.Unknown as e:
-            got = "unreadable (%s)" % e
+        r = cv.find("Float32", s, "Float32", d)
+        if r[0] == "Err":
+            got = "refuse"
+        elif r[0] == "Ok":
+            vtc, dc, rk, mc = cv.parts(r[1])
+            got = "none" if vtc is None else ("cast" if vtc == ("Lvalue", "Rvalue") else "cast(wrong categories %s)" % (vtc,))
+        else:
+            got = "%s (%s)" % r
         chk.ob("C03.conv-table/%s-to-%s" % (s, d), got == want, "%s -> %s: %s" % (s, d, got) if got == want else
-               "value-category conversion %s -> %s is '%s', must be '%s'" % (s, d, got, want), where(find, mm),
-               sample={"source": s, "dest": d, "result": got})
-    # const / volatile drop on an lvalue destination
-    for fld in ("is_const", "volatile"):
-        ok = False
-        for n in F.exprs(find["thir"], "If"):
-            c = F.strip(n["cond"])
-            if c.get("k") == "Logical" and c["op"] == "And":
-                l, r = F.strip(c["l"]), F.strip(c["r"])
-                if l.get("k") == "Field" and l["name"] == fld and r.get("k") == "Unary" and r["op"] == "Not" \
-                        and F.strip(r["e"]).get("k") == "Field" and F.strip(r["e"])["name"] == fld:
-                    src_v, dst_v = F.leftmost_var(l), F.leftmost_var(r["e"])
-                    errs = any(a.get("variant") == "Err" for a in F.exprs(n["then"], "Adt") if short(a["adt"]) == "Result")
-                    ok = errs and src_v is not None and dst_v is not None and src_v["id"] != dst_v["id"]
-                    # enclosing condition mentions Lvalue on dest
-                    enc = False
-                    for outer in F.exprs(find["thir"], "If"):
-                        if any(x is n for x in F.walk(outer["then"])):
-                            if any((F.adt_ctor(a) or (0, 0))[1] == "Lvalue" for a in F.walk(outer["cond"]) if a.get("k") == "Adt"):
-                                enc = True
-                    ok = ok and enc
-        chk.ob("C03.conv-table/keep-%s-on-lvalue" % fld, ok, "dropping %s towards an lvalue destination is refused" % fld if ok else
-               "ImplicitConversion::find no longer refuses to drop `%s` when the destination is an lvalue (out/inout of const data)" % fld, where(find))
+               "value-category conversion %s -> %s is '%s', must be '%s'" % (s, d, got, want), where(find), sample={"source": s, "dest": d, "result": got})
+    for fld, m in (("is_const", 1), ("volatile", 2)):
+        r_l = cv.find("Float32", "Lvalue", "Float32", "Lvalue", smod=m, dmod=0)
+        r_r = cv.find("Float32", "Lvalue", "Float32", "Rvalue", smod=m, dmod=0)
+        r_same = cv.find("Float32", "Lvalue", "Float32", "Lvalue", smod=m, dmod=m)
+        ok = r_l[0] == "Err" and r_r[0] == "Ok" and r_same[0] == "Ok"
+        chk.ob("C03.conv-table/keep-%s-on-lvalue" % fld, ok, "dropping %s towards an lvalue destination is refused (kept: accepted; towards an rvalue: accepted)" % fld if ok else
+               "ImplicitConversion::find: %s source -> plain lvalue destination is %s (must be refused), -> rvalue is %s, -> same modifier is %s: an out/inout parameter can receive const / volatile data"
+               % (fld, r_l[0], r_r[0], r_same[0]), where(find))
 
 
 def rule_out(chk):
@@ -313,8 +286,12 @@ def rule_through(chk):
                    "the conversion found is applied" if ok else
                    "a conversion is looked up with ImplicitConversion::find but never applied to the expression (raw operand stored)",
                    where(b, t.get("ln")), sample={"fn": short(owner), "line": t.get("ln")})
-    for fn_name, floor in FIND_FLOOR.items():
-        chk.floor("C03.through/sites/" + fn_name, per_fn.get(fn_name, 0), floor, "ImplicitConversion::find sites in %s" % fn_name, TY)
+    # every function that must convert its operands does so somewhere: itself or a private helper it calls
+    for fn_name in FIND_FLOOR:
+        fnb = f.fn(fn_name, TY)
+        fam = F.family(f, fnb, depth=1) if fnb else []
+        cnt = sum(1 for b2 in fam for c in F.exprs(b2["thir"], "Call") if (c.get("rfn") or c.get("fn")) == find["path"])
+        chk.floor("C03.through/sites/" + fn_name, cnt, 1, "ImplicitConversion::find sites in %s (and the helpers it calls)" % fn_name, TY)
     chk.note("conversion sites: %s" % dict(sorted(per_fn.items())))
     # operands of the nodes built by parse_expr_binop originate from apply
     pb = f.fn("parse_expr_binop", TY)
@@ -408,56 +385,36 @@ def rule_swizzle_value_type(chk):
 
 
 def rule_lvalue_destination(chk):
-    """out / inout arguments bind by reference: ImplicitConversion::find read as a decision table for an Lvalue
-    destination over all scalar / vector / matrix shapes x {same, different element type}: a conversion is granted only
-    between identical types or between T and vector<T,1>, never across element types or dimensions (those need a
-    temporary, which is an rvalue)."""
-    import c16
+    """out / inout arguments bind by reference: ImplicitConversion::find evaluated (convmodel.py) for an Lvalue source and
+    an Lvalue destination over scalar / vector / matrix shapes of two element types: a conversion is granted only between
+    identical types or between T and vector<T,1>, never across element types or dimensions (those need a temporary,
+    which is an rvalue)."""
+    import convmodel as CM
     f = chk.facts
-    ip = I.Interp(f)
     find = chk.anchor("C03.anchor/ImplicitConversion::find", f.fn("find", TY, self_ty="ImplicitConversion"), "ImplicitConversion::find")
     if not find:
         return
-    dm = None
-    for m in F.exprs(find["thir"], "Match"):
-        st = F.strip(m["scrut"]).get("ty", "")
-        if st.endswith("TypeLayer") and any(short(a["adt"]) == "DimensionCast" for a in F.exprs(m, "Adt")):
-            if dm is None or len(list(F.walk(m))) > len(list(F.walk(dm))):
-                dm = m
-    names = c16.find_roles(find, dm) if dm is not None else {}
-    need = ["source_l", "dest_l", "dest", "source_id", "dest_id"]
-    if not chk.anchor("C03.anchor/find-dimension-table", dm is not None and all(n in names for n in need) and dm, "the dimension-cast match of find and its inputs %s" % need, where(find)):
-        return
-
-    def lay(kind, arg, elem):
-        if kind == "Scalar":
-            return I.Enum("TypeLayer", "Scalar", {"0": I.Enum("ScalarType", "Float32" if elem == 7 else "Int32")})
-        return c16.layer(kind, arg, scalar_id=elem)
+    cv = CM.Conversions(f)
+    shapes = ["%s", "%s1", "%s2", "%s3", "%s4", "%s2x2", "%s4x4", "%s3x4"]
     n = 0
     bad = []
-    for sk, sa in c16.dims():
-        for dk, da in c16.dims():
-            for same in (True, False):
-                se, de = 7, (7 if same else 8)
-                sid = se if sk == "Scalar" else 50
-                did = de if dk == "Scalar" else (50 if (same and (sk, sa) == (dk, da)) else 51)
-                env = {names["source_l"]: lay(sk, sa, se), names["dest_l"]: lay(dk, da, de),
-                       names["dest"]: I.Enum("ExpressionType", None, {"0": I.Enum("TypeId", None, {"0": 100}), "1": I.Enum("ValueType", "Lvalue")}),
-                       names["source_id"]: I.Enum("TypeId", None, {"0": sid}), names["dest_id"]: I.Enum("TypeId", None, {"0": did})}
-                n += 1
-                try:
-                    r = ip.ev(dm, env)
-                    granted = True
-                except I.ReturnEx:
-                    granted = False
-                except I.Unknown as e:
-                    chk.ob("C03.lvalue-dest/readable", False, "dimension-cast table of find not readable: %s" % e, where(find, dm))
-                    return
-                identical = same and (sk, sa) == (dk, da)
-                wrap = same and {(sk, sa), (dk, da)} == {("Scalar", None), ("Vector", 1)}
-                if granted and not (identical or wrap):
-                    bad.append("%s%s of element type A -> %s%s of element type %s" % (sk, "" if sa is None else sa, dk, "" if da is None else da, "A" if same else "B"))
+    for ea in ("Float32", "Int32"):
+        for eb in ("Float32", "Int32"):
+            for sa in shapes:
+                for sb in shapes:
+                    src, dst = sa % ea, sb % eb
+                    n += 1
+                    r = cv.find(src, "Lvalue", dst, "Lvalue")
+                    if r[0] in ("unreadable", "aborts"):
+                        chk.ob("C03.lvalue-dest/readable", False, "find(%s -> %s) is %s: %s" % (src, dst, r[0], r[1]), where(find))
+                        return
+                    identical = src == dst
+                    wrap = ea == eb and {sa, sb} == {"%s", "%s1"}
+                    if r[0] == "Ok" and not (identical or wrap):
+                        bad.append("%s -> %s" % (src, dst))
+                    if r[0] == "Err" and (identical or wrap):
+                        bad.append("%s -> %s refused" % (src, dst))
     chk.ob("C03.lvalue-dest/no-conversion", not bad,
-           "%d shape pairs: an lvalue destination accepts only the identical type or T <-> vector<T,1>" % n if not bad else
-           "ImplicitConversion::find grants a conversion to an LVALUE destination for %s (%d case(s)): an out/inout parameter then binds to a converted temporary, i.e. an ill-typed call is accepted"
-           % (bad[0], len(bad)), where(find, dm), sample={"cases": n, "granted_wrongly": bad[:6]})
+           "%d type pairs: an lvalue destination accepts only the identical type or T <-> vector<T,1>" % n if not bad else
+           "ImplicitConversion::find for an LVALUE destination: %s (%d case(s)): an out/inout parameter then binds to a converted temporary, i.e. an ill-typed call is accepted"
+           % (bad[0], len(bad)), where(find), sample={"cases": n, "wrong": bad[:6]})
